@@ -263,6 +263,12 @@ int main(int argc, char **argv) {
     if (s.label.compare(0, 13, "boundary-mesh") == 0)   // deterministic sweep over the framing + connectivity bytes
       for (size_t p = 0; p < std::min<size_t>(s.bytes.size(), 44); p++) { const uint8_t o = s.bytes[p]; const uint8_t pats[] = {0x00, 0x7f, 0x80, 0xff, (uint8_t)(o ^ 1), (uint8_t)(o ^ 0x40), (uint8_t)(o + 1), (uint8_t)(o | 0x0f)};
         for (uint8_t v : pats) if (v != o) { std::vector<uint8_t> b = s.bytes; b[p] = v; cases.push_back({b, "sweep@" + U(p) + "=" + U(v) + " of " + s.label, 0}); } }
+    // old bitstream versions store sizes and counts as fixed 32- and 64-bit fields where the current one uses varints: on the small
+    // legacy streams every offset gets a 32-bit and a 64-bit value with the top bit set and an all-ones value
+    if (s.legacy && s.bytes.size() >= 11 && s.bytes.size() < 1200 && !(s.bytes[5] == 2 && s.bytes[6] >= 2))
+      for (size_t p = 11; p < s.bytes.size(); p++) for (int w : {4, 8}) for (int pat = 0; pat < 2; pat++) { std::vector<uint8_t> b = s.bytes;
+        for (int k = 0; k < w && p + k < b.size(); k++) b[p + k] = pat ? 0xff : (k == 0 ? 0x01 : (k == w - 1 ? 0x80 : 0x00));
+        cases.push_back({b, "field" + S(8 * w) + (pat ? "=ones@" : "=topbit@") + U(p) + " of " + s.label, s.mesh ? 0 : 1}); }
     if (thorough && s.bytes.size() < 600) for (size_t k = 0; k < s.bytes.size(); k++) { std::vector<uint8_t> b(s.bytes.begin(), s.bytes.begin() + k); cases.push_back({b, "truncate@" + U(k) + " of " + s.label, 2}); }
   }
   { // known finding D23 made visible on every run: a VALID kd-tree stream of 4 points with 3 x 200 uint8 components (D = 600)
